@@ -436,7 +436,7 @@ def walk_rule(repo, res, tier, rule="SK-WALK", report_leniency=True, only=None):
             res.check(ok, rule, k, why, f"bash skeleton line {line}")
 
 
-def fb_rule(repo, res, tier, rule="SK-FB"):
+def fb_rule(repo, res, tier, rule="SK-FB", only=None):
     names, sets = flag_sets(repo, tier)
     slots = table_slots(repo)
     agg = {}
@@ -520,6 +520,10 @@ def fb_rule(repo, res, tier, rule="SK-FB"):
             shortest = [c for n2, *_ in B.walk(last) if n2.kind == "cond" for c in [n2.text] if "#candidate" in c or "#shortest_suffix" in c]
             oks = any(re.fullmatch(r"\$\{#candidate\} -lt \$\{#shortest_suffix\}", c.strip()) for c in shortest)
             rec("F5:shortest-suffix-wins", oks, f"{shortest}" + ("" if oks else ": the shortest suffix over all word-break characters must be kept"), last.line)
+            # every match of the winning level is offered: the reply block reads `matches` and never rewrites it (a de-duplication
+            # or filter placed here drops candidates -- values that are prefixes of one another look alike to a substring test)
+            mw = [n2 for n2, *_ in B.walk(last) if n2.kind == "simple" for a in B.assignments(n2) if a[0] == "matches"]
+            rec("F4:reply-offers-every-match", not mw, "the reply block does not assign `matches`" if not mw else f"`{' '.join(mw[0].words)[:80]}` rewrites the match list inside the reply block: candidates collected for the winning level are dropped before COMPREPLY is set", (mw[0] if mw else last).line)
             sp = [a[3] for s in inner if s.kind == "simple" for a in B.assignments(s) if a[0] == "COMPREPLY"]
             rec("F5:reply-strips-prefix-only", bool(sp) and "#$superfluous_prefix" in sp[0], f"COMPREPLY={sp[0] if sp else None}", last.line)
         rec(f"F4:first-level-with-matches-wins[{tag}]", ok, why, lp.line)
@@ -528,7 +532,8 @@ def fb_rule(repo, res, tier, rule="SK-FB"):
         ok = len(after) == 1 and after[0].kind == "simple" and after[0].words == ["return", "0"]
         rec("F4:returns-0-after-levels", ok, "the function ends with return 0 after the level loop", lp.line)
     for k, (ok, why, line) in sorted(agg.items()):
-        res.check(ok, rule, k, why, f"bash skeleton line {line}")
+        if only is None or k.startswith(f"{rule}:{only}"):
+            res.check(ok, rule, k, why, f"bash skeleton line {line}")
 
 
 # ------------------------------------------------------------------ SK-SUB (C12)
